@@ -214,6 +214,24 @@ CLAIMED["C18"] = dict(
     note=NOTE_COMMON + "; the quantifier over ALL rotations is not reached for the resampling (the cell a back-rotated point falls in is a "
          "nonlinear function of the rotation): rotations are concrete there; cells within one cell of the back-rotated boundary are not constrained",
 )
+CLAIMED["C19"] = dict(
+    text="Reduced scope (DESIGN 2/C19). Decided by the solver: neighbouring-cell angles (result mesh one cell shorter and "
+         "shifted by half a cell, arccos of the clipped dot product of the two adjacent unit vectors by UF congruence, range "
+         "[0, pi] from the UF axiom, degrees); the continuous charge-density stencil on 3x3 meshes is zero for uniform fields, "
+         "odd under reversal, invariant under translation of the mesh, scales with the inverse cell area, moves with the cells "
+         "under quarter turns and is invariant under rational proper rotations of all vectors -- for ARBITRARY vector fields "
+         "in place of the orientation field (compositional cut of Field.orientation), closed by per-cell lemmas that the real "
+         "orientation commutes with reversal, those rotations, positive rescaling and translation; Berg-Luescher bookkeeping "
+         "with the triangle angle as an uninterpreted function under every validity pattern (which neighbour pairs enter, "
+         "area and count, invalid cells never influence an output); refusals. NOT decided by the solver (run natively, "
+         "floating point, sampled): integer lattice charge, triangle angle vs. an independent solid-angle formula, "
+         "invariances of both methods on a skyrmion, antiparallel neighbours, hedgehog Bloch points, demagnetisation tensor "
+         "(trace, two implementations, cuboid sum rule for cubic and anisotropic cells).",
+    ref="DESIGN.md section 2 / C19",
+    note=NOTE_COMMON + "; everything that rests on identities of arccos / complex log / arcsinh / arctan or on the FFT is outside the "
+         "solver's reach and only exercised natively (stated per obligation group in the evidence); rotations are a finite set of "
+         "rational matrices; Field.orientation is cut to the identity inside the tools in symbolic runs",
+)
 PENDING_REASON = "check not built yet in this round (planned: DESIGN.md section 2); not claimed until it runs green"
 NA = {}
 
